@@ -412,7 +412,7 @@ func runGram(c *explore.Ctx, side *gramSide) {
 		if restrict {
 			what = "grammar G¹ (keywords only in keyword positions)"
 		}
-		s := c.Sub(name, fmt.Sprintf("every sentence of ≤ %d tokens of the %s %s, with every single-token mutation: delete, duplicate, swap with neighbour, substitute by / insert each of %d classes", n, side.name, what, len(alpha)),
+		s := c.Sub(name, fmt.Sprintf("every sentence of ≤ %d tokens of the %s %s, with every bracket pair emptied / removed with its content and every single-token mutation: delete, duplicate, swap with neighbour, substitute by / insert each of %d classes", n, side.name, what, len(alpha)),
 			"parser accepts ⇔ the all-paths reference recogniser derives the mutated token sequence; trees equal when accepted", "mutants in the language")
 		if s == nil {
 			return
@@ -683,6 +683,25 @@ func mutProfiles(c *explore.Ctx, side *gramSide, g *refgrammar.Grammar, docs []s
 				return
 			}
 			if p < len(toks) {
+				if cl, ok := map[string]string{"(": ")", "{": "}", "[": "]"}[toks[p]]; ok {
+					// the bracket pair emptied, and the bracketed group removed
+					depth, q := 0, -1
+					for k := p; k < len(toks); k++ {
+						if toks[k] == toks[p] {
+							depth++
+						} else if toks[k] == cl {
+							depth--
+							if depth == 0 {
+								q = k
+								break
+							}
+						}
+					}
+					if q > p+1 {
+						run(append(append([]string{}, toks[:p+1]...), toks[q:]...))
+						run(append(append([]string{}, toks[:p]...), toks[q+1:]...))
+					}
+				}
 				run(append(append([]string{}, toks[:p]...), toks[p+1:]...))
 				run(append(append(append([]string{}, toks[:p+1]...), toks[p]), toks[p+1:]...))
 				if p+1 < len(toks) {
